@@ -101,6 +101,28 @@ def run(res, tier, replay):
             why = "member of the cabinet found at offset %d (beyond 2 GiB) extracts wrongly (%s)" % (off, [o.kv.get("st") for o in exs])
         if why and res.violation(why, sc.text(), key="search-far"): nfar += 1
     res.oblige("search: a cabinet beyond the 2 GiB mark of its container is found, listed and extracted (%d containers)" % len(far), nfar == 0)
+    # directed (own generator state): every part of a split set behind filler in its file; the parts search() reports are joined
+    # and every member is extracted - what lies behind the reported offsets is the cabinet, wherever in its file it starts
+    from vlib import cabfmt as _cf
+    nemb = 0; emb_s = []; emb_m = []
+    for di in range(2 if tier == "quick" else 6):
+        r14 = random.Random(1414 + di)
+        fo = _cf.Folder([("none",), ("mszip",), ("lzx", 16)][di % 3], [_cf.Member(b"e%d.bin" % j, length=ln) if di % 3 == 2 else _cf.Member(b"e%d.bin" % j, data=bytes(r14.randrange(256) for _ in range(ln))) for j, ln in enumerate([3000, 40000, 30000])])
+        for m_ in fo.members:
+            if m_.data is not None: m_.length = len(m_.data)
+        fo.prepare(r14); cabs_, names_ = _cf.build_set([fo], [(0, 1, 5000)], r14, names=[b"e1.cab", b"e2.cab"])
+        # (one file per part: joining two cabinets of ONE search() result and closing the list is the recorded finding of C02)
+        sc = scenario.Scn().file("in0.cab", filler(r14, 700) + cabs_[0] + filler(r14, 50)).file("in1.cab", filler(r14, 333 + di) + cabs_[1] + filler(r14, 50))
+        sc.op("cab_new").op("cab_param", 0, [7, 32768][di % 2]).op("cab_search", "c0", "in0.cab").op("cab_search", "c1", "in1.cab").op("cab_append", "c0", "c1")
+        for mi in range(3): sc.op("cab_extract", "c0", mi, "out%d" % mi, 0)
+        emb_s.append(sc); emb_m.append(fo)
+    for sc, fo, t in zip(emb_s, emb_m, scenario.run_scenarios(exe, emb_s)):
+        res.evaluations += 1; res.nontrivial.add(("embedded-set", len(sc.text()))); res.count("embedded-set")
+        ex_ = [o for o in t.ops if o.name == "cab_extract"]; jn_ = [o for o in t.ops if o.name == "cab_append"]
+        good = not t.crash and not t.hang and jn_ and jn_[0].kv.get("st") == "0" and len(ex_) == 3 and all(o.kv.get("st") == "0" and (o.out or "") == m_.data.hex() for o, m_ in zip(ex_, fo.members))
+        if not good:
+            nemb += 1; res.violation("a split set whose parts lie behind filler in their files: found by search(), joined, but members do not extract (%s)" % ([o.kv.get("st") for o in ex_] or (t.crash or "")[-100:]), sc.text(), key="c14:embedded-set")
+    res.oblige("search: the parts of a split set embedded behind filler are found, join and extract (%d files)" % len(emb_s), nemb == 0)
     trs = scenario.run_scenarios(exe, scns)
     rc, mout, err = vlib.run_lines(mexe, ["find"], mlines)
     nbad = 0; ndiff = 0
